@@ -201,7 +201,7 @@ def _dec(v):
 def model_outcome(answer):
     if answer.startswith('ok '):
         v = json.loads(answer[3:])
-        return ('ok', _dec(v['doc']), v['rt'])
+        return ('ok', _dec(v['doc']), v['rt'], v['writable'])
     if answer.startswith('err '):
         return ('err', answer.split()[1], None)
     if answer.startswith('unsup '):
@@ -520,6 +520,10 @@ def check(run, source, netlist, opts, real_items, text, describe):
             st['outcomes']['document'] += 1
             st['modules_compared'] += len(model[1])
             st['rt_check true' if model[2] else 'rt_check false'] += 1
+            if model[3]:
+                st['writable'] += 1
+                if not model[2]:
+                    problems.append('writable (the class of C04_emit_roundtrip_full) but rt_check = false')
             if model[2]:
                 bad = [it for it in (real_items or []) if it['kind'] in RT_CLAIMS]
                 if bad:
